@@ -23,7 +23,11 @@ func init() {
 	All["C03"] = func() int {
 		return runHistCheck(histCheck{prop: "C03", scenarios: c03Scenarios(), depthQ: 4, depthT: 6, statesQ: 200000, statesT: 3000000,
 			budgetQ: 150 * time.Second, budgetT: 25 * time.Minute,
-			rule:   "explicit-state BFS over histories of how txs R1 (relevant), R2 (child of R1), I1 (irrelevant) reach the real node: inv/tx from the trusted peer and a verified untrusted peer, answers to getdata, local submission, blocks containing them, empty blocks, clock, clean restart; per handler and txid: HandleTx at most once, completeness, no irrelevant delivery, spent outputs per input, both handlers identical",
+			sched: []nschedTask{
+				{P: c03Scenarios()[0], Hist: []string{"multi:inv:T:R1|tx:U1:R1", "ans", "mine:R1,R2", "ans", "multi:tx:T:R2|tx:U1:R2", "tick:250"}},
+				{P: c03Scenarios()[0], Hist: []string{"multi:tx:T:R1|tx:U1:R1|local:R1", "mine:R1", "multi:ans|tx:U1:R1", "tick:250", "tx:T:R1"}},
+			},
+			rule:   "(with a schedule exploration part: two baselines with concurrent arrivals of the same tx from the trusted peer, an untrusted peer and the application and a confirming block racing a re-announcement; one stall / pre-emption at every scheduling point) explicit-state BFS over histories of how txs R1 (relevant), R2 (child of R1), I1 (irrelevant) reach the real node: inv/tx from the trusted peer and a verified untrusted peer, answers to getdata, local submission, blocks containing them, empty blocks, clock, clean restart; per handler and txid: HandleTx at most once, completeness, no irrelevant delivery, spent outputs per input, both handlers identical",
 			assume: peerAssumption})
 	}
 	Replayers["C03"] = func(wit json.RawMessage) []core.Violation { return histReplay(wit, "C03") }
